@@ -50,8 +50,6 @@ package gmtls
 //@   (requires args (and (not (isnil config)) (not (isnil cert)) (not (isnil ckx)))))
 //@ (func "(*ecdheKeyAgreement).processServerKeyExchange" sweep
 //@   (requires args (and (not (isnil config)) (not (isnil clientHello)) (not (isnil serverHello)) (not (isnil cert)) (not (isnil skx)))))
-//@ (func "(*Conn).decryptTicket" sweep
-//@   (requires args (not (isnil (field c config)))))
 
 // ---- record layer helpers (conn.go) ----------------------------------------------------------------------------------
 // The implicit sequence number is the 8-byte big-endian counter hc.seq: incSeq adds exactly one and panics only when
@@ -143,3 +141,55 @@ package gmtls
 //@   (requires h (not (isnil (field s h))))
 //@   (ensures len (= (len result) (hash.size (tag (field s h)) (obj (field s h)))))
 //@   (modifies (object digestBuf)))
+
+// ---- session resumption: the server resumes only when every condition of the policy holds --------------------------
+// decryptTicket accepts a ticket only when tickets are enabled and the HMAC comparison over the ticket returned equal
+// (it decrypts in place: the caller's buffer is overwritten, which is why the callers pass a copy).
+//@ (func "(*Conn).decryptTicket" autoloops
+//@   (requires args (not (isnil (field c config))))
+//@   (ghost-havoc ctc.last)
+//@   (modifies (elems encrypted))
+//@   (ensures accepted (=> result.1 (and (not (isnil result.0)) (= (ghost ctc.last) 1)
+//@                                       (not (field (field c config) SessionTicketsDisabled))))))
+// the suite tables hold non-nil entries (package-level composite literals)
+//@ (defmacro suitesOK () (and
+//@      (forall ((j B64)) (=> (bvult j (len (global "gmtls.gmCipherSuites"))) (not (isnil (at (global "gmtls.gmCipherSuites") j)))))
+//@      (forall ((j B64)) (=> (bvult j (len (global "gmtls.cipherSuites"))) (not (isnil (at (global "gmtls.cipherSuites") j)))))))
+//@ (defmacro cfgOf (hs) (field (field hs c) config))
+//@ (defmacro sessOf (hs) (field hs sessionState))
+//@ (defmacro resumeOK (hs) (and
+//@      (not (field (cfgOf hs) SessionTicketsDisabled))
+//@      (not (isnil (sessOf hs)))
+//@      (= (ghost ctc.last) 1)
+//@      (= (field (field hs c) vers) (field (sessOf hs) vers))
+//@      (exists ((j B64)) (and (bvult j (len (field (field hs clientHello) cipherSuites)))
+//@                             (= (at (field (field hs clientHello) cipherSuites) j) (field (sessOf hs) cipherSuite))))
+//@      (=> (or (= (field (cfgOf hs) ClientAuth) 2) (= (field (cfgOf hs) ClientAuth) 4)) (bvsgt (len (field (sessOf hs) certificates)) 0))
+//@      (=> (= (field (cfgOf hs) ClientAuth) 0) (= (len (field (sessOf hs) certificates)) 0))))
+//@ (func "(*serverHandshakeStateGM).checkForResumption" autoloops noframe
+//@   (requires args (and (not (isnil (field hs c))) (not (isnil (cfgOf hs))) (not (isnil (field hs clientHello)))))
+//@   (requires sep (distinct (obj hs) (obj (field hs c)) (obj (cfgOf hs)) (obj (field hs clientHello))))
+//@   (requires tables (suitesOK))
+//@   (ghost-havoc ctc.last)
+//@   (ensures policy (=> result (resumeOK hs))))
+//@ (func "(*serverHandshakeState).checkForResumption" autoloops noframe
+//@   (requires args (and (not (isnil (field hs c))) (not (isnil (cfgOf hs))) (not (isnil (field hs clientHello)))))
+//@   (requires sep (distinct (obj hs) (obj (field hs c)) (obj (cfgOf hs)) (obj (field hs clientHello))))
+//@   (requires tables (suitesOK))
+//@   (ghost-havoc ctc.last)
+//@   (ensures policy (=> result (resumeOK hs))))
+// helpers of the resumption check: they read the configuration and write only what is named
+//@ (func "(*Config).cipherSuites" trusted
+//@   (requires nn (not (isnil c)))
+//@   (ensures window (and (bvsle 0 (len result)) (bvsle (len result) (cap result)))))
+//@ (func "(*Config).ticketKeys"
+//@   (requires nn (not (isnil c))))
+//@ (func "(*sessionState).unmarshal" autoloops
+//@   (requires nn (not (isnil s)))
+//@   (modifies (object s)))
+//@ (func "(*serverHandshakeStateGM).setCipherSuite" autoloops
+//@   (requires tables (suitesOK))
+//@   (modifies (field hs suite)))
+//@ (func "(*serverHandshakeState).setCipherSuite" autoloops
+//@   (requires tables (suitesOK))
+//@   (modifies (field hs suite)))
